@@ -250,17 +250,33 @@ def _used_axes(roots, funcs):
     return s
 
 
-def pipelines(nfuncs=2, tier="quick", sizes=None):  # noqa: C901, PLR0912
-    """yield specs with 1..nfuncs functions"""
+def pipelines(nfuncs=2, tier="quick", sizes=None, *, roots_opts=None, f_internal=None, f_outs=None, extras="all", g_internal=None,
+              h_extras=(None, "a"), shard=None):  # noqa: C901, PLR0912, PLR0913
+    """yield specs with 1..nfuncs functions.
+
+    tier "quick" is the base family (rank <= 2 roots, <= 1 internal axis per pipeline). The keyword knobs select other
+    families explicitly (the full "everything at once" product has > 10^7 two-function pipelines and is never enumerated):
+      roots_opts   list of root sets                       (default ROOT_SETS_QUICK; "thorough" adds rank 3 / 2-D zips)
+      f_internal   max internal axes of the first function  (default 1)
+      f_outs       output tuples of the first function      (default one and two outputs)
+      extras       "all" | "none": whether the second function takes a second array (sibling, root again, new root)
+      g_internal   max internal axes of the second function (default: 1 if the first has none, else 0)
+      shard        (k, n): only the (root set, first function) pairs with index % n == k
+    """
     sizes = dict(sizes or DEFAULT_SIZES)
     rich = tier == "thorough"
-    max_internal = 2 if rich else 1
-    roots_opts = ROOT_SETS_THOROUGH if rich else ROOT_SETS_QUICK
+    roots_opts = roots_opts or (ROOT_SETS_THOROUGH if rich else ROOT_SETS_QUICK)
+    max_internal = f_internal if f_internal is not None else 1
+    f_outs = f_outs or [("a",), ("a", "b")]
+    idx = -1
     for roots in roots_opts:
-        for f1 in functions_over(roots, "f", [("a",), ("a", "b")], _used_axes(roots, []), ["u", "w"], max_internal, rich,
+        for f1 in functions_over(roots, "f", f_outs, _used_axes(roots, []), ["u", "w"], max_internal, rich,
                                  must_use=list(roots)):
             if len(f1["params"]) != len(roots):
                 continue  # every root must be consumed, otherwise it is a surplus input
+            idx += 1
+            if shard is not None and idx % shard[1] != shard[0]:
+                continue
             s1 = {"roots": roots, "sizes": sizes, "funcs": [f1]}
             yield s1
             if nfuncs < 2:
@@ -269,15 +285,16 @@ def pipelines(nfuncs=2, tier="quick", sizes=None):  # noqa: C901, PLR0912
             out_arrays = {o: ax1[o] for o in f1["outs"]}
             # second function: consumes 'a' (+ optionally 'b', a root again, or a new root z)
             extra_opts = [None]
-            if "b" in out_arrays:
-                extra_opts.append(("b", out_arrays["b"]))
-            extra_opts.append(("x", tuple(roots["x"])))
-            used1 = _used_axes(roots, [f1])
-            if ax1["a"]:
-                extra_opts.append(("z", (ax1["a"][0],)))  # new root zipped with the first axis of a
-            if "k" not in used1:
-                extra_opts.append(("z", ("k",)))          # new root on a fresh axis: outer product
-            extra_opts.append(("z", ()))                  # new scalar root
+            if extras == "all":
+                if "b" in out_arrays:
+                    extra_opts.append(("b", out_arrays["b"]))
+                extra_opts.append(("x", tuple(roots["x"])))
+                used1 = _used_axes(roots, [f1])
+                if ax1["a"]:
+                    extra_opts.append(("z", (ax1["a"][0],)))  # new root zipped with the first axis of a
+                if "k" not in used1:
+                    extra_opts.append(("z", ("k",)))          # new root on a fresh axis: outer product
+                extra_opts.append(("z", ()))                  # new scalar root
             for extra in extra_opts:
                 avail = {"a": out_arrays["a"]}
                 roots2 = dict(roots)
@@ -285,19 +302,19 @@ def pipelines(nfuncs=2, tier="quick", sizes=None):  # noqa: C901, PLR0912
                     avail[extra[0]] = extra[1]
                     if extra[0] == "z":
                         roots2 = {**roots, "z": list(extra[1])}
-                # quick bound: at most one internal axis per pipeline, internal shape declared on the PipeFunc for f and
-                # through map(internal_shapes=) for g; thorough: both mechanisms, internal axes on both functions
-                g_int = 1 if (rich or not f1["internal"]) else 0
+                # base bound: at most one internal axis per pipeline, internal shape declared on the PipeFunc for f and
+                # through map(internal_shapes=) for g
+                g_int = g_internal if g_internal is not None else (1 if not f1["internal"] else 0)
                 for f2 in functions_over(avail, "g", [("c",)], _used_axes(roots2, [f1]), ["w", "m"], g_int, rich, must_use=list(avail),
-                                         no_ms_internal=False, vias=("map", "pipefunc") if rich else ("map",)):
-                    if not rich and f1.get("ishape_via") == "map" and f1["internal"]:
+                                         no_ms_internal=False, vias=("map",)):
+                    if f1.get("ishape_via") == "map" and f1["internal"]:
                         break
                     s2 = {"roots": roots2, "sizes": sizes, "funcs": [f1, f2]}
                     yield s2
                     if nfuncs < 3:
                         continue
                     ax2 = output_axes(s2)
-                    for extra3 in (None, "a"):
+                    for extra3 in h_extras:
                         avail3 = {"c": ax2["c"]}
                         if extra3:
                             avail3["a"] = ax2["a"]
